@@ -396,6 +396,23 @@ func init() {
 	ctl("commit ignores a failed row update", "T-COMMIT", "Commit|reference index after rows", "database/inmemory", "inMemoryDatabase", "Commit", kStmt, "err := targetDb.ApplyCacheUpdate(update)", 0, to("err := targetDb.ApplyCacheUpdate(update)\n_ = err\nerr = nil"))
 	ctl("map decoder keeps the destination's map", "K-FRESH", "(*ovsdb.OvsMap).UnmarshalJSON|field GoMap", "ovsdb", "OvsMap", "UnmarshalJSON", kStmt, "o.GoMap = make(map[interface{}]interface{})", 0, to("if o.GoMap == nil {\no.GoMap = make(map[interface{}]interface{})\n}"))
 	ctl("default test looks through the pointer", "P-OPT", "isDefaultBaseValue|IsZero receiver", "ovsdb", "", "isDefaultBaseValue", kExpr, "reflect.ValueOf(elem).IsZero()", 0, to("(reflect.ValueOf(elem).IsNil() || reflect.ValueOf(elem).Elem().IsZero())"))
+	registerControl(&ControlDef{Name: "uuidset.equals compares entries with single-value lookups", Rule: "MAP-EQ", Expect: "uuidset).equals|entrywise map comparison", Edit: func(p *Program) ([]TextEdit, error) {
+		fd, _, err := p.funcDecl("cache", "uuidset", "equals")
+		if err != nil {
+			return nil, err
+		}
+		var loop ast.Node
+		ast.Inspect(fd.Body, func(n ast.Node) bool {
+			if rs, ok := n.(*ast.RangeStmt); ok {
+				loop = rs
+			}
+			return true
+		})
+		if loop == nil {
+			return nil, fmt.Errorf("loop of uuidset.equals not found")
+		}
+		return []TextEdit{p.editReplace(loop, "for uuid, v := range s {\nif o[uuid] != v {\nreturn false\n}\n}")}, nil
+	}})
 	ctl("lock taken before waiting for the handlers", "L-WAIT", "handleDisconnectNotification|WaitGroup.Wait", "client", "ovsdbClient", "handleDisconnectNotification", kStmt, "o.handlerShutdown.Wait()", 0, to("o.shutdownMutex.Lock()\no.handlerShutdown.Wait()\no.shutdownMutex.Unlock()"))
 	ctl("transact accepts an empty operation list", "G-ARGS", "at least one operation", "server", "OvsdbServer", "Transact", kExpr, "len(args) < 2", 0, to("len(args) < 1"))
 	ctl("delete-by-keys special case for every column", "P-NIL-TYPEOBJ", "addMutateOperation|deref", "updates", "ModelUpdates", "addMutateOperation", kExpr, `mutation.Mutator == "delete" && column.Type == ovsdb.TypeMap && reflect.TypeOf(mutation.Value) != reflect.TypeOf(ovsdb.OvsMap{})`, 0, to(`mutation.Mutator == "delete" && reflect.TypeOf(mutation.Value) != reflect.TypeOf(ovsdb.OvsMap{})`))
